@@ -171,6 +171,36 @@ DESC = {
     "C18-r5m1": "re-opened handle's last_commit stays None until its first commit (age rule skipped)",
     "C18-r5m2": "ages of an hour or more treated as a clock jump: timer restarted without committing",
     "C18-r5m3": "zero-duration single inserts exempt from the age rule",
+    "C01-r6m1": "Bucket.insert computes now.replace(year=now.year+1): ValueError on 29 February",
+    "C01-r6m2": "sqlite insert_one coalesces a new event that starts exactly where the newest equal-data event ends",
+    "C01-r6m3": "memory keeps the list sorted (bisect.insort) + next id from the last element (two sites)",
+    "C02-r6m1": "memory bisect.insort on insert, reads only reverse; replace still writes in place",
+    "C02-r6m2": "sqlite replace_last rewrites every event sharing the latest start instant",
+    "C02-r6m3": "peewee bulk upsert via bulk_update (same live id twice in a list: first entry wins)",
+    "C03-r6m1": "peewee _where_range early-out for an empty range (count 0 for a zero-width window)",
+    "C03-r6m2": "memory get_events fast path for limit == 1 without a start (ignores the window end)",
+    "C03-r6m3": "sqlite early-out when the window starts after the end of the last inserted row",
+    "C05-r6m1": "peewee create_bucket with explicit key = len(bucket_keys) + 1",
+    "C05-r6m2": "sqlite update_bucket skips unchanged rows with a NULL-unsafe condition (name NULL)",
+    "C05-r6m3": "memory update_bucket applies a dict keyed by parameter names (type_id instead of type)",
+    "C06-r6m1": "sqlite deletes -wal/-shm files older than 60 s on open",
+    "C06-r6m2": "sqlite deletions queued in memory, flushed at most operations but not at commit/create/update bucket",
+    "C06-r6m3": "atexit hook commits the open transaction at interpreter exit",
+    "C07-r6m1": "heartbeat_reduce measures the gap from the previous heartbeat's start, not the merged event's end",
+    "C07-r6m2": "Bucket.insert skips a single event that is covered by the newest event (data not compared)",
+    "C07-r6m3": "sqlite insert_one extends the newest equal-data row when the new event starts within 1 ms after it",
+    "C12-r6m1": "query_bucket returns [] without fetching when get_eventcount(start, end) == 0",
+    "C12-r6m2": "query(): everything from # to the end of the line stripped before parsing (ids containing #)",
+    "C12-r6m3": "query_bucket_eventcount drops the lower bound when STARTTIME <= bucket created",
+    "C14-r6m1": "sqlite bulk insert formats the bucket id into the SQL text (ids with an apostrophe)",
+    "C14-r6m2": "migration passes legacy events through heartbeat_reduce(pulsetime=0)",
+    "C14-r6m3": "migration reads all events in one query and groups them with groupby without sorting by bucket",
+    "C18-r6m1": "Bucket.insert: warn_older_event = True (a pre-read flushes and restarts the timer before every insert)",
+    "C18-r6m2": "commit() skipped unless a _dirty flag is set; executemany does not set it",
+    "C18-r6m3": "age measured with time.process_time()",
+    "C20-r6m1": "_merge walks the default's keys; user-only keys re-added only at the top level",
+    "C20-r6m2": "arrays extend the defaults instead of replacing them",
+    "C20-r6m3": "changed = changed or _merge(...): later overlapping tables not merged",
 }
 
 
@@ -191,7 +221,7 @@ def main():
         m["breaks_property"] = own
         m["change"] = DESC.get(name, "")
         m["needs_to_manifest"] = " ".join(needs)[:900] if needs else notes[:600]
-        m["author"] = "independent sub-agent, round %d; saw only the property text and a private worktree" % (5 if "-r5" in name else 4 if "-r4" in name else 3 if "-r3" in name else 2 if "-r2" in name else 1)
+        m["author"] = "independent sub-agent, round %d; saw only the property text and a private worktree" % (6 if "-r6" in name else 5 if "-r5" in name else 4 if "-r4" in name else 3 if "-r3" in name else 2 if "-r2" in name else 1)
         json.dump(m, open(mp, "w"), indent=1)
         det = []
         first = ""
@@ -206,7 +236,7 @@ def main():
         rows.append((name, own, DESC.get(name, ""), "yes (%s)" % first if own in det else "**no**", ", ".join(c for c in det if c != own) or "—", ", ".join(harness) or ""))
     out = ["## Appendix F — seeded changes and the checks that catch them", "",
            "Generated by `tools/appendix_f.py` from `seeded/*/meta.json` (each change applied to a scratch worktree,",
-           "`VERIF_REPO=<worktree> check.py <ID> --tier quick`). `-m*` = first round, `-r2m*` … `-r5m*` = second … fifth round (agents were",
+           "`VERIF_REPO=<worktree> check.py <ID> --tier quick`). `-m*` = first round, `-r2m*` … `-r6m*` = second … sixth round (agents were",
            "told which ideas had been used and asked for other mechanisms). \"own check\" = the check of the property the change was written against.", "",
            "| id | change | own check (first oracle) | also caught by |", "|----|--------|--------------------------|----------------|"]
     for name, own, desc, owns, others, harness in rows:
